@@ -6,7 +6,10 @@ Open Scope N_scope.
 Definition dec_call (n : N) : option call :=
   match n with
   | 0 => Some CConnect | 1 => Some CPub0 | 2 => Some CPub1 | 3 => Some CPub2 | 4 => Some CSub
-  | 5 => Some CUnsub | 6 => Some CPing | 7 => Some CDisconnect | 8 => Some CRetryPing | _ => None
+  | 5 => Some CUnsub | 6 => Some CPing | 7 => Some CDisconnect | 8 => Some CRetryPing
+  | 9 => Some CRPub1 | 10 => Some CRPub1x | 11 => Some CRPub2 | 12 => Some CRPub2x | 13 => Some CRRel
+  | 14 => Some CRRelx | 15 => Some CRSub | 16 => Some CRSubx | 17 => Some CRUnsub | 18 => Some CRUnsubx
+  | _ => None
   end.
 
 Definition dec_point (n : N) : option point :=
@@ -92,13 +95,13 @@ Definition c11_seq_violations (l : list c11_seq_case) : list nat := indices_wher
 Definition c11_seq_mismatches (l : list c11_seq_case) : list nat := indices_where (fun k => negb (c11_seq_m k)) l.
 
 (* ---------- stray acknowledgements before the cause ---------- *)
-(* call (9 = no call blocked), point, cause, k, result, retryable, Done() closed, reader gone,
+(* call (99 = no call blocked), point, cause, k, result, retryable, Done() closed, reader gone,
    the marker PUBLISH sent after the stray packets was handed to the handler (= the reader is alive while the
    connection is healthy), anything left/stuck *)
 Definition c11_stray_case := (N * N * N * N * N * bool * bool * bool * bool * bool)%type.
 
 Definition dec_ocall (n : N) : option (option call) :=
-  match n with 9 => Some None | _ => match dec_call n with Some c => Some (Some c) | None => None end end.
+  match n with 99 => Some None | _ => match dec_call n with Some c => Some (Some c) | None => None end end.
 
 Definition c11_stray_v (x : c11_stray_case) : bool :=
   let '(c, p, z, k, r, retry, done, rexit, marker, bad) := x in
